@@ -27,6 +27,7 @@ SIM_MODULES = [
     'valjean.cosette.backends.queue',
     'valjean.cosette.scheduler',
     'valjean.cosette.run',
+    'valjean.cosette.code',
     'valjean.cambronne.common',
     'valjean.cambronne.commands.run',
 ]
@@ -84,6 +85,7 @@ def load_sim():
         'queue': ns['valjean.cosette.backends.queue'],
         'scheduler': ns['valjean.cosette.scheduler'],
         'run': ns['valjean.cosette.run'],
+        'code': ns['valjean.cosette.code'],
         'common': ns['valjean.cambronne.common'],
         'cmdrun': ns['valjean.cambronne.commands.run'],
         'config': ns['valjean.config'],
